@@ -10,7 +10,7 @@ import (
 	"golang.org/x/tools/go/ssa"
 )
 
-var reFrameSuffix = regexp.MustCompile(`@[A-Za-z0-9_>$.*()]+:t\d+`)
+var reFrameSuffix = regexp.MustCompile(`@[A-Za-z0-9_>$.*()#]+:t\d+`)
 
 // normName strips the site suffixes the machine attaches to call results.
 func normName(s string) string {
@@ -18,7 +18,7 @@ func normName(s string) string {
 	return reAppendName.ReplaceAllString(s, "append")
 }
 
-var reAppendName = regexp.MustCompile(`append:[A-Za-z0-9_>$.*()]+:t\d+`)
+var reAppendName = regexp.MustCompile(`append:[A-Za-z0-9_>$.*()#]+:t\d+`)
 
 // exploreOperator explores fn (evaluateBinary / evaluateUnary) for one operator token type; the handle*
 // helpers are inlined, the coercions and isEqual stay events.
@@ -204,6 +204,18 @@ func checkC02(p *Prog, l *Ledger) {
 					continue
 				}
 				nSucc++
+				// a value is produced only from operands whose coercion succeeded
+				failedCoercion := ""
+				for _, e := range w {
+					// (for +, a failed conversion to number selects the text arm: only operators with one operand type)
+					if e.Op == "call" && strings.Contains(e.Out, "err") && len(e.Args) > 1 && spec.coerce != "" && strings.HasSuffix(e.Args[0], "."+spec.coerce) {
+						failedCoercion = e.Args[0][strings.LastIndex(e.Args[0], ".")+1:] + "(" + e.Args[1] + ")"
+					}
+				}
+				if failedCoercion != "" {
+					bad = append(bad, "a value ("+ret+") is produced on a path on which "+failedCoercion+" failed: the operand is not of the operator's type, and no error is reported (the failure is not looked at)")
+					continue
+				}
 				matched := false
 				for i, pat := range spec.success {
 					if regexp.MustCompile("^" + pat + "$").MatchString(ret) {
